@@ -176,9 +176,15 @@ def linear(e, binds, sign=1, acc=None):
     return None
 
 
-def range_desc(e, binds):
-    """(start field, len field or None) of a range literal `a..a+l` / `a..a` built from op fields."""
+def range_desc(e, binds, lets=None):
+    """(start field, len field or None) of a range literal `a..a+l` / `a..a` built from op fields.
+    `lets` ({local id: initialiser}) lets a range that was first bound to a local be looked through."""
     e = unwrap(e)
+    hops = 0
+    while lets and isinstance(e, dict) and e.get("k") == "path" and e.get("res", {}).get("k") == "local" \
+            and e["res"]["id"] in lets and hops < 5:
+        e = unwrap(lets[e["res"]["id"]])
+        hops += 1
     if not (isinstance(e, dict) and e.get("k") == "struct" and e.get("adt") == "std::ops::Range"):
         return None
     f = {x["name"]: x["e"] for x in e["fields"]}
@@ -398,13 +404,26 @@ def rule_F2(prog):
         alg = find_nodes(fn.hir["body"], lambda n: n["k"] == "mcall" and n["name"] == "algorithm")
         ok = ok and len(alg) == 1 and [origin(a) for a in alg[0]["args"]] == ["alg"]
         rem = find_nodes(fn.hir["body"], lambda n: n["k"] == "call" and origin(n["f"]).endswith("from_text_diff"))
+        rem_args = [[origin(a) for a in c["args"]] for c in rem]
+        if not rem:
+            # the remapper may be built by a private helper that receives (diff, old, new)
+            for call in find_nodes(fn.hir["body"], lambda n: n["k"] == "call" and n["f"].get("k") == "path"):
+                g = prog.fn((call["f"].get("res") or {}).get("path", ""))
+                if g is None or not g.hir:
+                    continue
+                inner = find_nodes(g.hir["body"], lambda n: n["k"] == "call" and origin(n["f"]).endswith("from_text_diff"))
+                if len(inner) != 1:
+                    continue
+                pnames = [pp["pat"].get("name") for pp in g.hir["params"]]
+                amap = {pn: origin(a) for pn, a in zip(pnames, call["args"])}
+                rem_args.append([amap.get(origin(a), origin(a)) for a in inner[0]["args"]])
         if x != "lines":
-            ok = ok and len(rem) == 1 and [origin(a) for a in rem[0]["args"]] == ["diff", "old", "new"]
+            ok = ok and len(rem_args) == 1 and rem_args[0] == ["diff", "old", "new"]
         rets = find_nodes(fn.hir["body"], lambda n: n["k"] == "ret", stop=lambda n: n["k"] == "closure")
         if rets:
             ok = False
         r.ob(ok, "utils::diff_%s: %s remapper%s early returns: %d" % (x, [(c["name"], [origin(a) for a in c["args"]]) for c in calls],
-                                                   [[origin(a) for a in c["args"]] for c in rem], len(rets)))
+                                                   rem_args, len(rets)))
         if not ok:
             r.find(fn.path, "utils-wiring", "utils::diff_%s must be the straight-line wrapper configure().algorithm(alg).diff_%s(old, "
                    "new) with TextDiffRemapper::from_text_diff(&diff, old, new) and no other return path (found %d early "
@@ -413,18 +432,48 @@ def rule_F2(prog):
 
 
 # ---------------------------------------------------------------- F3 / F4
-def _change_literals(node, binds=None):
-    """Change / InlineChange struct literals below node, in source order:
-    (tag, old_index is Some, new_index is Some, value side)"""
+def _inline_local_calls(node, prog, depth=0):
+    """HIR nodes in evaluation order with the bodies of local helper methods/functions spliced in at their call sites
+    (one level of private helpers such as `self.next_delete()`), so that per-arm tables survive helper extraction."""
     out = []
-    for lit in find_nodes(node, lambda n: n["k"] == "struct" and n.get("adt") in ("types::Change", "text::inline::InlineChange")):
+    if depth > 2 or prog is None:
+        return [node]
+    out.append(node)
+    for call in find_nodes(node, lambda n: n["k"] in ("mcall", "call")):
+        path = call.get("method") if call["k"] == "mcall" else (call["f"].get("res") or {}).get("path") if call["f"].get("k") == "path" else None
+        g = prog.fn(path) if path else None
+        if g is not None and g.hir and g.hir.get("body") and not g.public and g.kind != "Closure":
+            out.append(("callee", call, g))
+    return out
+
+
+def _change_literals(node, binds=None, prog=None):
+    """Change / InlineChange struct literals below node, in source order:
+    (tag, old_index is Some, new_index is Some, value side).  Private helpers called below `node` are looked into."""
+    out = []
+    scopes = [(node, node)]
+    if prog is not None:
+        calls = find_nodes(node, lambda n: n["k"] in ("mcall", "call"))
+        for call in calls:
+            path = call.get("method") if call["k"] == "mcall" else ((call["f"].get("res") or {}).get("path") if call["f"].get("k") == "path" else None)
+            g = prog.fn(path) if path else None
+            if g is not None and g.hir and g.hir.get("body") and not g.public and g.kind != "Closure":
+                scopes.append((g.hir["body"], g.hir["body"]))
+    seen_ids = set()
+    for scope, _ in scopes:
+      for lit in find_nodes(scope, lambda n: n["k"] == "struct" and n.get("adt") in ("types::Change", "text::inline::InlineChange")):
+        if (id(scope), lit["id"]) in seen_ids:
+            continue
+        seen_ids.add((id(scope), lit["id"]))
+        lit = dict(lit)
+        lit["_scope"] = scope
         f = {x["name"]: x["e"] for x in lit["fields"]}
         tag = tag_of(f.get("tag"))
         oi = origin(f.get("old_index"))
         ni = origin(f.get("new_index"))
         out.append({"tag": tag, "old_some": oi.startswith(("Option::Some(", "Some(")), "old_none": oi in ("Option::None", "None"),
                     "new_some": ni.startswith(("Option::Some(", "Some(")), "new_none": ni in ("Option::None", "None"),
-                    "old_src": oi, "new_src": ni, "line": lit["line"], "node": lit})
+                    "old_src": oi, "new_src": ni, "line": lit["line"], "node": lit, "scope": lit.get("_scope")})
     return out
 
 
@@ -478,18 +527,18 @@ def rule_F4(prog):
             continue
         mn, arms = ms[0]
         for v, want in CHANGES.items():
-            lits = _change_literals(arms[v]["body"])
+            lits = _change_literals(arms[v]["body"], prog=prog)
             got = []
             for lit in lits:
                 # value side: the `value` binding of the enclosing block
-                side = _value_side(lit["node"], arms[v]["body"])
+                side = _value_side(lit["node"], lit.get("scope") or arms[v]["body"])
                 got.append((lit["tag"], lit["old_some"], lit["new_some"], side))
             ok = got == want
             # the branch that yields an old-side change may depend on the old cursor only (and new on new): this is
             # what makes a Replace yield all its deletes before its first insert
             gbad = []
             for lit in lits:
-                cond = _innermost_if_cond(arms[v]["body"], lit["node"])
+                cond = _innermost_if_cond(lit.get("scope") or arms[v]["body"], lit["node"])
                 if cond is None:
                     continue
                 names = set()
@@ -627,6 +676,7 @@ def rule_F3(prog):
                 continue
             mn, arms = ms[0]
             d = {}
+            fn_lets = _lets(fn)
             for v, want in SLICES.items():
                 a = arms[v]
                 binds = pat_bindings(a["pat"])
@@ -639,10 +689,10 @@ def rule_F3(prog):
                     rng = None
                     if isinstance(x, dict) and x.get("k") == "index":
                         side = origin(x["base"])
-                        rng = range_desc(x["idx"], binds)
+                        rng = range_desc(x["idx"], binds, fn_lets)
                     elif isinstance(x, dict) and x.get("k") == "mcall" and x["name"] == "slice":
                         side = origin(x["recv"]).replace("self.", "")
-                        rng = range_desc(x["args"][0], binds) if x["args"] else None
+                        rng = range_desc(x["args"][0], binds, fn_lets) if x["args"] else None
                     got.append((tg, side, rng[0] if rng else None, rng[1] if rng else None))
                 d[v] = got
                 ok = got == want
@@ -731,11 +781,37 @@ def rule_F5(prog):
         ok = False
         got = "?"
         if len(ifs) == 1:
-            c = origin(ifs[0]["c"])
-            t = [x["op"] for x in find_nodes(ifs[0]["t"], lambda n: n["k"] == "assignop")]
-            f = [x["op"] for x in find_nodes(ifs[0]["f"], lambda n: n["k"] == "assignop")] if ifs[0].get("f") else []
-            got = (c, t, f)
-            ok = c == "adj.1" and t in (["-"], ["-="]) and f in (["+"], ["+="])
+            pname = fn.hir["params"][1]["pat"].get("name") if len(fn.hir["params"]) > 1 else None
+            comp = {}       # local id -> tuple component of the (amount, subtract?) parameter
+            for st in find_nodes(fn.hir["body"], lambda n: n.get("k") == "let" and isinstance(n.get("pat"), dict) and n["pat"].get("k") == "tuple"):
+                if st.get("init") and origin(st["init"]) == pname:
+                    for i, sp in enumerate(st["pat"]["pats"]):
+                        if sp.get("k") == "bind":
+                            comp[sp["id"]] = i
+            ppat = fn.hir["params"][1]["pat"] if len(fn.hir["params"]) > 1 else {}
+            if ppat.get("k") == "tuple":
+                for i, sp in enumerate(ppat["pats"]):
+                    if sp.get("k") == "bind":
+                        comp[sp["id"]] = i
+
+            def component(e_):
+                e_ = unwrap(e_)
+                o = origin(e_)
+                if pname and o == pname + ".0":
+                    return 0
+                if pname and o == pname + ".1":
+                    return 1
+                if isinstance(e_, dict) and e_.get("k") == "path" and e_.get("res", {}).get("k") == "local":
+                    return comp.get(e_["res"]["id"])
+                return None
+            c = component(ifs[0]["c"])
+            tn = find_nodes(ifs[0]["t"], lambda n: n["k"] == "assignop")
+            fn_ = find_nodes(ifs[0]["f"], lambda n: n["k"] == "assignop") if ifs[0].get("f") else []
+            t = [x["op"] for x in tn]
+            f = [x["op"] for x in fn_]
+            amounts = [component(x["r"]) for x in tn + fn_]
+            got = ("component %s" % c, t, f, amounts)
+            ok = c == 1 and t in (["-"], ["-="]) and f in (["+"], ["+="]) and amounts == [0, 0]
         r.ob(ok, "modify: %s" % (got,))
         if not ok:
             r.find(fn.path, "modify", "modify must subtract when the flag is true and add otherwise; found %s" % (got,),
@@ -905,8 +981,10 @@ def _token_profile(fn):
                 chars.add(c)
         elif k == "mcall" and n["name"] in CLASSIFIERS:
             classes.add(n["name"])
-        if k == "lit" and n.get("ty") == "bool" and not n.get("exp") and n.get("src") in ("true", "false"):
-            bools.append(n.get("src", ""))
+        if k == "mcall" and n["name"] in ("map_or", "is_some_and", "is_none_or") and n["args"]:
+            d0 = unwrap(n["args"][0])
+            if isinstance(d0, dict) and d0.get("k") == "lit" and d0.get("src") in ("true", "false"):
+                bools.append(d0["src"])
     walk_hir(fn.hir, visit)
     return chars, classes, tuple(sorted(bools))
 
@@ -933,7 +1011,8 @@ def rule_F7(prog):
             r.find("text::abstraction::DiffableStr::" + name, "missing-impl", "%s is not implemented for both str and [u8]" % name)
             continue
         ps, pb = _token_profile(s), _token_profile(b)
-        ok = ps == pb
+        # boolean look-ahead defaults (`peek().map_or(false, ..)`) are comparable only when both impls use that idiom
+        ok = ps[:2] == pb[:2] and (not ps[2] or not pb[2] or set(ps[2]) == set(pb[2]))
         r.ob(ok, "%s: str uses chars %s classes %s bools %s; [u8] uses chars %s classes %s bools %s" % (
             name, sorted(ps[0]), sorted(ps[1]), list(ps[2]), sorted(pb[0]), sorted(pb[1]), list(pb[2])))
         if not ok:
